@@ -47,6 +47,57 @@ def make_get(behaviour, on_call):
     return get
 
 
+class Ms:
+    """a modelled duration / clock reading in milliseconds (int or SymInt) that mixes with the seconds the code computes with"""
+
+    def __init__(self, ms):
+        self.ms = ms
+
+    @staticmethod
+    def of(x):
+        if isinstance(x, Ms):
+            return x.ms
+        if isinstance(x, SymInt):
+            return x * 1000
+        return int(round(x * 1000))
+
+    def __add__(self, o):
+        return Ms(self.ms + Ms.of(o))
+
+    __radd__ = __add__
+
+    def __sub__(self, o):
+        return Ms(self.ms - Ms.of(o))
+
+    def __rsub__(self, o):
+        return Ms(Ms.of(o) - self.ms)
+
+    def __neg__(self):
+        return Ms(-self.ms)
+
+    def __lt__(self, o):
+        return self.ms < Ms.of(o)
+
+    def __le__(self, o):
+        return self.ms <= Ms.of(o)
+
+    def __gt__(self, o):
+        return self.ms > Ms.of(o)
+
+    def __ge__(self, o):
+        return self.ms >= Ms.of(o)
+
+    def __eq__(self, o):
+        return self.ms == Ms.of(o)
+
+    __hash__ = None
+
+    def __float__(self):
+        if isinstance(self.ms, SymInt):
+            raise pse.Concretisation("float(modelled time)")
+        return self.ms / 1000.0
+
+
 def model(sym):
     from ..backend import _no_network
     _no_network()
@@ -105,27 +156,97 @@ def model(sym):
             if burnt > 400:
                 st["delay"] = st["delay"] + 5000  # a fixed amount: the decision tree must not depend on the measured value
 
+    def main_clock():
+        """milliseconds on the command's thread since the checker was started: the command's own duration once it has run, plus waits"""
+        return (D if st.get("armed") else 0) + st["delay"]
+
+    def block(spy, timeout):
+        """the command's thread blocks for at most `timeout` (None: until the checker is done); True iff the checker finished meanwhile"""
+        if st.get("ran"):
+            return True
+        remaining = L - main_clock()
+        if timeout is None:
+            wait = remaining if truth(remaining > 0) else 0
+        else:
+            tms = Ms.of(timeout)
+            if truth(tms < 0):
+                tms = 0
+            if truth(remaining <= 0):
+                wait = 0
+            elif truth(remaining <= tms):
+                wait = remaining
+            else:
+                wait = tms
+        before = main_clock()
+        st["delay"] = st["delay"] + wait
+        if truth(L <= before + wait):
+            st["visible"] = True
+            thread_body(spy)  # the thread finished before the wait returned
+            return True
+        return False
+
+    class FakeTime:
+        @staticmethod
+        def monotonic():
+            return Ms(main_clock())
+
+        time = perf_counter = monotonic
+
+        @staticmethod
+        def sleep(s):
+            st["delay"] = st["delay"] + Ms.of(s)
+
+    import queue as _queue
+
+    class FakeQueue:
+        def __init__(self, maxsize=0):
+            self.items = []
+
+        def put(self, x, block=True, timeout=None):
+            self.items.append(x)
+
+        put_nowait = put
+
+        def empty(self):
+            return not self.items
+
+        def qsize(self):
+            return len(self.items)
+
+        def get(self, block=True, timeout=None):
+            if self.items:
+                return self.items.pop(0)
+            if not block:
+                raise _queue.Empty
+            if st["ctx"] != "main":
+                raise pse.HarnessError("queue.get on the checker thread is not modelled")
+            if timeout is not None and truth(Ms.of(timeout) < 0):
+                raise ValueError("'timeout' must be a non-negative number")
+            st["joins"].append("queue.get(%s)" % ("None" if timeout is None else "timeout"))
+            block_on = st.get("spy")
+            if block_on is not None:
+                block(block_on, timeout)
+            if self.items:
+                return self.items.pop(0)
+            if timeout is None:
+                st["delay"] = st["delay"] + HANG  # blocks for ever
+            raise _queue.Empty
+
+        def get_nowait(self):
+            return self.get(False)
+
+    fake_queue = types.SimpleNamespace(Queue=FakeQueue, SimpleQueue=FakeQueue, LifoQueue=FakeQueue, Empty=_queue.Empty, Full=_queue.Full)
+
     class Spy(U.Updater):
         def start(self):
             st["started"] = st.get("started", 0) + 1
 
         def join(self, timeout=None):
-            st["joins"].append(timeout)
-            remaining = L - D
-            if timeout is None:
-                wait = remaining if truth(remaining > 0) else 0
-            else:
-                tms = int(timeout * 1000)
-                if truth(remaining <= 0):
-                    wait = 0
-                elif truth(remaining <= tms):
-                    wait = remaining
-                else:
-                    wait = tms
-            st["delay"] = st["delay"] + wait
-            if truth(L <= D + wait):
-                st["visible"] = True
-                thread_body(self)  # the thread finished before join returned
+            st["joins"].append(timeout if not isinstance(timeout, Ms) else "computed")
+            block(self, timeout)
+
+        def is_alive(self):
+            return not st.get("ran")
 
         def __getattribute__(self, name):
             if st["ctx"] == "main" and st.get("armed") and not name.startswith("__") and name not in ("join", "start", "run", "daemon"):
@@ -138,8 +259,16 @@ def model(sym):
     saved_lg = (LG.click, LG.verbose_logging)
     U.requests, CLI.click = fake_requests, fake_click
     LG.click, LG.verbose_logging = fake_click, verbose_cmd
+    import time as _time
+    saved_mods = {}
+    for mod in (U, CLI):
+        for name, real_mod, fake in (("time", _time, FakeTime), ("queue", _queue, fake_queue)):
+            if mod.__dict__.get(name) is real_mod:
+                saved_mods[(mod, name)] = real_mod
+                setattr(mod, name, fake)
     try:
         spy = Spy()
+        st["spy"] = spy
         pse.require(st.get("started") == 1, "thread-started-once", str(st.get("started")))
         pse.require(st.get("started") == 1, "thread-started-once", str(st.get("started"))) if False else None
         st["armed"] = True
@@ -156,7 +285,7 @@ def model(sym):
         # the interpreter waits for non-daemon threads at exit
         total = st["delay"]
         if not spy.daemon and not st["visible"]:
-            total = total + (L - D - st["delay"])
+            total = total + (L - D - st["delay"])  # the rest of the server's latency
         pse.require(truth(total <= 1000), "termination-delayed-more-than-1s",
                     "%s: join timeouts %s, daemon %s" % (tag, st["joins"], spy.daemon))
         pse.require(len(st["prints_main"]) <= 1, "more-than-one-notice", str(st["prints_main"]))
@@ -165,6 +294,8 @@ def model(sym):
     finally:
         U.requests, CLI.updater, CLI.click = saved
         LG.click, LG.verbose_logging = saved_lg
+        for (mod, name), real_mod in saved_mods.items():
+            setattr(mod, name, real_mod)
 
 
 REAL_SCRIPT = r'''
@@ -191,6 +322,7 @@ if cfg["tool"] == "ascmhl":
     from ascmhl.cli.ascmhl import mhltool_cli as cli
 else:
     from ascmhl.cli.ascmhl_debug import mhldebugtool_cli as cli
+time.sleep(cfg.get("busy_s", 0))   # the command's own duration: what it spends hashing before the result callback runs
 t0 = time.time()
 res = CliRunner(mix_stderr=False).invoke(cli, argv)
 t1 = time.time()
@@ -219,15 +351,15 @@ def real(sym):
     behaviour = sym.choose("server_behaviour", BEHAVIOURS)
     hang = sym.flag("server_never_answers")
     L = sym.choose("response_latency_ms", LATENCIES) if not hang else HANG
-    sym.int("command_duration_ms", 0, 5000)
+    busy = sym.int("command_duration_ms", 0, 5000) / 1000.0
     sym.int("late_thread_runs_before_read", 1, 9)
     verbose_cmd = sym.flag("command_run_with_v")
     d = tempfile.mkdtemp(prefix="mhlverif-c20-")
     try:
         open(os.path.join(d, "f.txt"), "w").write("x")
-        base = run_real({"tool": tool, "behaviour": "conn-error", "latency_s": 0, "dir": d, "verbose": verbose_cmd})  # timing reference only
+        base = run_real({"tool": tool, "behaviour": "conn-error", "latency_s": 0, "dir": d, "verbose": verbose_cmd, "busy_s": busy})  # timing reference only
         lat = 20.0 if hang else min(L, 4000) / 1000.0
-        got = run_real({"tool": tool, "behaviour": behaviour, "latency_s": lat, "dir": d, "verbose": verbose_cmd})
+        got = run_real({"tool": tool, "behaviour": behaviour, "latency_s": lat, "dir": d, "verbose": verbose_cmd, "busy_s": busy})
         tag = "server %s latency %.1fs%s" % (behaviour, lat, " (hang)" if hang else "")
         pse.require(got.get("exit") is not None, "command-did-not-finish", "%s: %s" % (tag, str(got)[:300]))
         pse.require(got["exc"] == got["bare_exc"], "result-callback-raises", "%s: %s" % (tag, got.get("exc")))
@@ -241,8 +373,8 @@ def real(sym):
         def too_slow(g, b0):
             return g["t_cmd"] - b0["t_cmd"] > 1.5 or g["wall"] - b0["wall"] > 2.2
         if too_slow(got, base):
-            base2 = run_real({"tool": tool, "behaviour": "conn-error", "latency_s": 0, "dir": d, "verbose": verbose_cmd})
-            got2 = run_real({"tool": tool, "behaviour": behaviour, "latency_s": lat, "dir": d, "verbose": verbose_cmd})
+            base2 = run_real({"tool": tool, "behaviour": "conn-error", "latency_s": 0, "dir": d, "verbose": verbose_cmd, "busy_s": busy})
+            got2 = run_real({"tool": tool, "behaviour": behaviour, "latency_s": lat, "dir": d, "verbose": verbose_cmd, "busy_s": busy})
             pse.require(not too_slow(got2, base2), "termination-delayed-more-than-1s",
                         "%s: command took %.2fs / %.2fs (reference %.2fs / %.2fs), process %.2fs / %.2fs (reference %.2fs / %.2fs)"
                         % (tag, got["t_cmd"], got2["t_cmd"], base["t_cmd"], base2["t_cmd"], got["wall"], got2["wall"], base["wall"], base2["wall"]))
@@ -260,7 +392,8 @@ def fn(sym):
 
 LEVEL_NOTE = ("Concurrency is decided on a bounded model only: Thread.start does not spawn; the checker's run() is executed in 'checker context' and its "
               "single write of latest_version becomes visible to the main flow at a symbolic point (before the join returns if the symbolic latency "
-              "allows, else after a symbolic number of reads, or never); join(timeout) advances the main flow's clock by min(timeout, remaining). "
+              "allows, else after a symbolic number of reads, or never); join(timeout) / queue.get(timeout) advance the main flow's clock by "
+              "min(timeout, remaining); time.monotonic()/time() in the updater read that clock (command duration symbolic). "
               "Real threads, sockets and wall-clock time are exercised only in the real replays.")
 
 
@@ -270,4 +403,4 @@ def harnesses(tier):
                          "x latency (6 values from 0 to 60 s, or never) x symbolic command duration x symbolic point at which a late write becomes visible",
                     bounds={"behaviours": BEHAVIOURS, "latency": "one of %s ms or never" % LATENCIES, "command duration": "0..5000 ms", "schedule": "late thread body runs before the k-th read (k = 1..9) of the updater object by the main thread, or never"},
                     outside=["real thread scheduling, sockets, DNS, TLS", "wall-clock jitter (replays allow 0.6 s slack)"],
-                    stubs=["threading.Thread.start/join, requests.get, click.secho: updater model"])]
+                    stubs=["threading.Thread.start/join/is_alive, queue.Queue, time.monotonic/time/sleep, requests.get, click.secho: updater model"])]
